@@ -635,9 +635,29 @@ impl<'de> de::Deserializer<'de> for Value {
         visitor.visit_newtype_struct(self)
     }
 
+    fn deserialize_struct<V>(
+        self,
+        name: &'static str,
+        _fields: &'static [&'static str],
+        visitor: V,
+    ) -> Result<V::Value, crate::de::Error>
+    where
+        V: de::Visitor<'de>,
+    {
+        match self {
+            // `Datetime` is deserialized from a one-field struct holding its text
+            Value::Datetime(v) if name == datetime::NAME => {
+                let mut table = Table::new();
+                table.insert(datetime::FIELD.to_owned(), Value::String(v.to_string()));
+                visitor.visit_map(&mut MapDeserializer::new(table))
+            }
+            other => other.deserialize_any(visitor),
+        }
+    }
+
     serde::forward_to_deserialize_any! {
         bool u8 u16 u32 u64 i8 i16 i32 i64 f32 f64 char str string unit seq
-        bytes byte_buf map unit_struct tuple_struct struct
+        bytes byte_buf map unit_struct tuple_struct
         tuple ignored_any identifier
     }
 }
@@ -1032,15 +1052,18 @@ impl ser::Serializer for ValueSerializer {
                 map: Table::new(),
                 next_key: None,
             },
+            is_datetime: false,
         })
     }
 
     fn serialize_struct(
         self,
-        _name: &'static str,
+        name: &'static str,
         len: usize,
     ) -> Result<Self::SerializeStruct, crate::ser::Error> {
-        self.serialize_map(Some(len))
+        let mut map = self.serialize_map(Some(len))?;
+        map.is_datetime = name == datetime::NAME;
+        Ok(map)
     }
 
     fn serialize_struct_variant(
@@ -1362,6 +1385,8 @@ impl ser::SerializeStruct for SerializeMap {
 
 struct ValueSerializeMap {
     ser: SerializeMap,
+    /// The struct being serialized is a `Datetime` (a one-field struct holding its text)
+    is_datetime: bool,
 }
 
 impl ser::SerializeMap for ValueSerializeMap {
@@ -1399,7 +1424,15 @@ impl ser::SerializeStruct for ValueSerializeMap {
         ser::SerializeMap::serialize_value(self, value)
     }
 
-    fn end(self) -> Result<Value, crate::ser::Error> {
+    fn end(mut self) -> Result<Value, crate::ser::Error> {
+        if self.is_datetime {
+            if let Some(Value::String(s)) = self.ser.map.remove(datetime::FIELD) {
+                return s
+                    .parse::<Datetime>()
+                    .map(Value::Datetime)
+                    .map_err(ser::Error::custom);
+            }
+        }
         ser::SerializeMap::end(self)
     }
 }
@@ -1479,6 +1512,7 @@ impl ValueSerializeVariant<ValueSerializeMap> {
                     map: Table::with_capacity(len),
                     next_key: None,
                 },
+                is_datetime: false,
             },
         }
     }
